@@ -377,6 +377,9 @@ def _valid_atoms(ctx, f: Func) -> Dict[str, bool]:
             ok = _implies_valid(v)
             if isinstance(v, ast.Constant) and v.value is False:
                 ok = True
+            if not ok and any(pol and isinstance(c, ast.Name) and c.id == nm for c, pol in guards(n)
+                              if not hasattr(c, "stmt")):
+                ok = True  # re-assigned only where the flag was already true: it can only get weaker
             if nm in flags:
                 flags[nm] = flags[nm] and ok
             else:
@@ -893,11 +896,18 @@ def position_bookkeeping(ctx):
             if len(pa) != 1 or len(sa) != 1:
                 bad.append("expected one append to each parallel array")
             else:
-                if norm(pa[0].args[0]) not in (f"len(self.{S})", f"len(self.{P})"):
+                a0_ = pa[0].args[0]
+                taken_at = stmt_of(pa[0])
+                if isinstance(a0_, ast.Name):
+                    vs_ = assignments_to(h, a0_.id)
+                    if len(vs_) == 1:
+                        a0_ = vs_[0]
+                        taken_at = stmt_of(a0_)
+                if norm(a0_) not in (f"len(self.{S})", f"len(self.{P})"):
                     bad.append(f"position appended is `{norm(pa[0].args[0])}`, expected the current length")
-                pid = g.ids_of(stmt_of(pa[0]))
+                pid = g.ids_of(taken_at)
                 sid = g.ids_of(stmt_of(sa[0]))
-                if norm(pa[0].args[0]) == f"len(self.{S})" and pid and sid and pid[0] in g.reachable(sid):
+                if norm(a0_) == f"len(self.{S})" and pid and sid and pid[0] in g.reachable(sid):
                     bad.append("the timestamp is appended before its position is taken from len(timestamps): "
                                "positions are off by one")
                 if not (sa[0].args and norm(sa[0].args[0]).endswith(".timestamp()")):
